@@ -156,7 +156,17 @@ class Run:
             # operations alternate between the two sessions in a seeded pattern
             self.cur = (i * 7 + len(op) + self.sc.get("seed", 0)) % 3 == 0
             self.proj = self.sessions[1 if self.cur else 0]
-            getattr(self, "op_" + op[0])(op)
+            try:
+                getattr(self, "op_" + op[0])(op)
+            except Mismatch:
+                raise
+            except Exception as e:  # noqa: BLE001
+                # an operation the model expects to succeed (on this workspace) raised: with a stale or
+                # deleted cache the same history must not end differently
+                raise Mismatch("C08", "C08:operation-raised",
+                               f"{op} raised {type(e).__name__}: {str(e)[:160]} although the workspace allows it "
+                               f"(model: {sorted(x[:6] for x in self.model)})",
+                               f"C08:operation-raised:{op[0]}:{type(e).__name__}")
             self.executed = i + 1
             self.grams.append(op[0])
             if len(self.grams) >= 3:
